@@ -131,6 +131,9 @@ impl StandardLinearModel {
             basis[i] = number_of_variables + i;
         }
         let b = self.b_vec();
+        // what "zero" means for the sum of the artificial variables: relative to
+        // the right-hand sides it is a sum of (round-off grows with them)
+        let feasibility_tolerance = 1e-9 * (1.0 + b.iter().map(|b| b.abs()).sum::<f64>());
 
         let mut value = 0.0;
         //add the variables to the matrix and turn the objective function into
@@ -161,7 +164,7 @@ impl StandardLinearModel {
         match tableau.solve_avoiding(10000, &artificial_variables) {
             Ok(optimal_tableau) => {
                 let tableau = optimal_tableau.tableau();
-                if float_ne(tableau.current_value(), 0.0) {
+                if tableau.current_value().abs() > feasibility_tolerance {
                     return Err(CanonicalTransformError::Infesible(
                         "Initial problem is infeasible".to_string(),
                     ));
